@@ -91,6 +91,16 @@ func wellFormed(t tensor.Tensor, read *ref.T) string {
 	return ""
 }
 
+// smallInts: exact small integers 1,2,3,...,10,1,2,... in ascending runs
+// (sorted data, integer-valued floats, the value 10.0, repeated maxima).
+func smallInts(s []int) *ref.T {
+	t := ref.New(s)
+	for i := range t.V {
+		t.V[i] = float64(i%10 + 1)
+	}
+	return t
+}
+
 func shapesStr(in []*ref.T) string {
 	s := ""
 	for _, t := range in {
@@ -129,7 +139,16 @@ func checkC03(c *core.Ctx) {
 				if op.K == "Pow" && op.F == 0.5 {
 					in = []*ref.T{enum.Generic(s, 11, 0.5, 3, false)}
 				}
-				return applyBoth(op, in, false)
+				if v := applyBoth(op, in, false); !v.OK {
+					return v
+				}
+				// data-dependent paths: all elements equal; small exact integers in ascending order
+				for _, x := range []*ref.T{ref.FullOf(s, 2), ref.FullOf(s, 0.5), smallInts(s)} {
+					if v := applyBoth(op, []*ref.T{x}, false); !v.OK {
+						return v
+					}
+				}
+				return core.Pass()
 			})
 		}
 	}
@@ -178,6 +197,13 @@ func checkC03(c *core.Ctx) {
 					op := ref.Op{K: k}
 					v := applyBoth(op, []*ref.T{a, b}, false)
 					if !v.OK {
+						return v
+					}
+					// exact integers / constant operands
+					if v := applyBoth(op, []*ref.T{smallInts(pr[0]), ref.FullOf(pr[1], 2)}, false); !v.OK {
+						return v
+					}
+					if v := applyBoth(op, []*ref.T{ref.FullOf(pr[0], 0.5), smallInts(pr[1])}, false); !v.OK {
 						return v
 					}
 					// differential: identical to broadcasting explicitly first
@@ -388,6 +414,74 @@ func checkC04(c *core.Ctx) {
 			return core.Pass()
 		})
 	}
+	// structured operands (shortcuts for "special" matrices must be exact about what is special)
+	structured := func(kind string, n int) *ref.T {
+		m := ref.New([]int{n, n})
+		for i := 0; i < n; i++ {
+			for j := 0; j < n; j++ {
+				v := 0.
+				switch kind {
+				case "identity":
+					if i == j {
+						v = 1
+					}
+				case "unitlower":
+					if i == j {
+						v = 1
+					} else if i > j {
+						v = 0.5 + float64(i+2*j)
+					}
+				case "unitupper":
+					if i == j {
+						v = 1
+					} else if i < j {
+						v = -1.5 + float64(2*i+j)
+					}
+				case "diagonal":
+					if i == j {
+						v = float64(i + 2)
+					}
+				case "permutation":
+					if j == (i+1)%n {
+						v = 1
+					}
+				case "symmetric":
+					v = float64((i+1)*(j+1)) + 0.25
+				case "zero":
+				case "ones":
+					v = 1
+				case "almostidentity":
+					if i == j {
+						v = 1
+					}
+					if i == n-1 && j == 0 {
+						v = 1e-9
+					}
+				}
+				m.V[i*n+j] = v
+			}
+		}
+		return m
+	}
+	for _, kind := range []string{"identity", "unitlower", "unitupper", "diagonal", "permutation", "symmetric", "zero", "ones", "almostidentity"} {
+		for _, n := range []int{2, 3, 4} {
+			kind, n := kind, n
+			c.Case(fmt.Sprintf("structured/%s/%d", kind, n), true, func() core.Verdict {
+				s := structured(kind, n)
+				g := enum.Generic([]int{n, n}, 52, 0.5, 3, true)
+				gb := enum.Generic([]int{2, n, n}, 53, 0.5, 3, true)
+				for _, pr := range [][2]*ref.T{{s, g}, {g, s}, {s, s}, {gb, s}, {s, gb}} {
+					if v := applyBoth(ref.Op{K: "MatMul"}, []*ref.T{pr[0], pr[1]}, false); !v.OK {
+						return v
+					}
+				}
+				if v := matmulIdentities(s, g); !v.OK {
+					return v
+				}
+				return applyBoth(ref.Op{K: "Transpose"}, []*ref.T{s}, true)
+			})
+		}
+	}
 	// long inner / outer dimensions
 	for _, mnk := range [][3]int{{1, 40, 1}, {2, 33, 3}, {17, 2, 19}, {9, 9, 9}, {33, 1, 33}, {5, 64, 2}, {20, 24, 10}, {64, 8, 9}, {16, 16, 17}, {3, 40, 40}, {40, 40, 3}, {1, 300, 20}, {130, 3, 2}} {
 		for _, batch := range [][]int{{}, {2}, {3, 1}} {
@@ -502,7 +596,9 @@ func matmulIdentities(a, b *ref.T) core.Verdict {
 // longShapes: a few shapes with long dimensions (thresholds such as block
 // sizes, unrolling factors or small-buffer optimisations live beyond size 3).
 func longShapes(thorough bool) [][]int {
-	out := [][]int{{31}, {32}, {33}, {64}, {65}, {100}, {257}, {2, 40}, {40, 2}, {33, 3}, {2, 40, 3}, {5, 7}, {7, 5, 4}, {17, 17}}
+	out := [][]int{{31}, {32}, {33}, {64}, {65}, {100}, {257}, {2, 40}, {40, 2}, {33, 3}, {2, 40, 3}, {5, 7}, {7, 5, 4}, {17, 17},
+		{4}, {6}, {8}, {16}, {4, 4}, {8, 2}, {2, 16}, {4, 6}, {1000}, {1024}, {1025}, {512, 2},
+		{2, 1, 2, 1, 2}, {1, 2, 1, 2, 1, 2}, {2, 2, 1, 2, 2}, {2, 1, 1, 1, 1, 3}, {3, 1, 4, 1, 2}}
 	if thorough {
 		out = append(out, []int{1000}, []int{1025}, []int{3, 129, 2}, []int{130, 3}, []int{4, 4, 4, 4}, []int{5, 5, 5}, []int{2, 2, 2, 2, 2, 2, 2}[:6], []int{8, 9, 10})
 	}
@@ -696,6 +792,27 @@ func checkC05(c *core.Ctx) {
 		}},
 		{"offset3e9", func(s []int) *ref.T {
 			return ref.Map(enum.Generic(s, 57, 0.5, 4, true), func(x float64) float64 { return 3e9 + math.Round(x*2)/2 })
+		}},
+		{"ascending", func(s []int) *ref.T {
+			t := ref.New(s)
+			for i := range t.V {
+				t.V[i] = float64(i) + 0.5
+			}
+			return t
+		}},
+		{"descending-ints", func(s []int) *ref.T {
+			t := ref.New(s)
+			for i := range t.V {
+				t.V[i] = float64(len(t.V) - i)
+			}
+			return t
+		}},
+		{"two-valued", func(s []int) *ref.T {
+			t := ref.New(s)
+			for i := range t.V {
+				t.V[i] = []float64{2, 10}[(i/2)%2]
+			}
+			return t
 		}},
 		{"tie", func(s []int) *ref.T {
 			t := enum.Generic(s, 54, 0.5, 3, true)
